@@ -83,6 +83,13 @@ CLAIMS = {
             'data-independent seed, Alma centre/width expressions and positive stored weights — which imply the interval, constant, monotonicity and affine clauses over the reals.',
             'Trusted: as C02/C10. Not decided: the Gaussian kernel values over the live window; rounding.',
             'DESIGN.md §5 C04', 'E4/E5'),
+    'C08': ('other', 'static analysis: inertness/monotone-readiness entailment, integer-skeleton constant propagation for warm-up counts, interval/sign guard census',
+            'Decides: None-path inertness for all views; monotone readiness for all 38 views by entailment from the inductive class invariant (N symbolic); '
+            'warm-up thresholds of the 21 tabled views by constant propagation of the integer/typestate skeleton (floats unknown, must not branch on data) for '
+            'N ≤ 8 (quick) / 48 (thorough); a census showing every float division, log, sqrt and value assertion guarded on its path or in a reviewed exception table.',
+            'Trusted: vg/solve/fsign/skeleton modules, 13 reviewed exception sites (sfa/e_ready.py EXCEPTIONS). Not decided: overflow to inf from large finite inputs, NaN from cancellation. '
+            'Thresholds are for concrete N in the stated range only.',
+            'DESIGN.md §5 C08', 'E2/E3/E7'),
 }
 
 NOT_APPLICABLE = {
